@@ -6,10 +6,14 @@
     proposal submission, deposits, votes, cancellation, block boundaries (the EndBlocker resolves
     proposals as expired / passed / failed / rejected), direct sanction messages with and
     without the governance authority, sends, multi-sends, many-to-one transfers, delegations,
-    fee payments, funding. *)
+    fee payments, funding.  Proposals may be expedited; votes are weighted ballots (Yes / Abstain /
+    No / NoWithVeto in permille) of the one voter; the second half of the file holds the
+    statements about the individual resolutions (quorum not reached, veto, rejected, passed but a
+    message failed, expired, expedited conversion), message order inside a proposal, the funding of
+    temporary entries, exact clean-up, and the byte-level store keys. *)
 From Coq Require Import ZArith NArith List Bool.
 Import ListNotations.
-From PV Require Import Sanction.Sanction Proofs.SanctionProofs.
+From PV Require Import Sanction.Sanction Sanction.Keys Proofs.SanctionProofs Proofs.SanctionDeep Proofs.SanctionKeysProofs.
 Open Scope Z_scope.
 
 (** An address is sanctioned exactly when the temporary entry of the highest-numbered proposal
@@ -114,6 +118,260 @@ Print Assumptions C06_cancel_leaves_temp_refuted.
 Theorem C06_only_governance : forall c s m, step c s (ODirect false m) = (s, false).
 Proof. exact only_governance. Qed.
 Print Assumptions C06_only_governance.
+
+(** ** The highest-numbered proposal decides, whatever the order in which deposits arrived. *)
+Theorem C06_status_follows_highest_proposal : forall c sm um fid t0 b0 bb0 ops a p b,
+  let s := run c (init sm um fid t0 b0 bb0) ops in
+  temp_entry s a p = Some b -> (forall q x, temp_entry s a q = Some x -> (q <= p)%N) ->
+  is_sanctioned c s a = if unsanct c a then false else b.
+Proof. intros c sm um fid t0 b0 bb0 ops a p b; exact (status_follows_highest c _ a p b). Qed.
+Print Assumptions C06_status_follows_highest_proposal.
+
+(** Proposals 1, 2, 3 are submitted unfunded; the deposits arrive for 3 (sanction), then 2
+    (unsanction), then 1 (sanction): account 1's status is proposal 3's throughout. *)
+Example C06_interleaved_witness :
+  let c := {| c_unsanct := [5%N; 6%N]; c_gov_min := (1000, 20); c_exp_min := (5000, 0); c_thr := 500; c_exp_thr := 667; c_veto := 334; c_burn_veto := true; c_burn_quorum := false; c_burn_prevote := false |} in
+  let s0 := init (300, 0) (400, 0) 1%N 0 (fun _ => 9000) (fun _ => 100) in
+  let h := [OSubmit 0%N [MSanction [1%N; 2%N]] (0, 0) 300 400 false; OSubmit 3%N [MUnsanction [1%N]] (0, 0) 300 400 false;
+            OSubmit 3%N [MSanction [1%N]] (0, 0) 300 400 false; ODeposit 4%N 3%N (300, 0) 400] in
+  let s1 := run c s0 h in
+  let s2 := run c s0 (h ++ [ODeposit 4%N 2%N (400, 0) 400]) in
+  let s3 := run c s0 (h ++ [ODeposit 4%N 2%N (400, 0) 400; ODeposit 4%N 1%N (300, 0) 400]) in
+  (is_sanctioned c s1 1%N, is_sanctioned c s2 1%N, temp_entry s2 1%N 2%N, is_sanctioned c s3 1%N, temp_entry s3 1%N 1%N, is_sanctioned c s3 2%N)
+  = (true, true, Some false, true, Some true, true).
+Proof. vm_compute. reflexivity. Qed.
+
+(** ** The tally of the one voter's (weighted) ballot: which ballots reject, and how. *)
+Theorem C06_tally_outcomes : forall c expedited y a n w,
+  tally c expedited None = (false, c_burn_quorum c) /\                                  (* quorum not reached *)
+  (y + n + w = 0 -> tally c expedited (Some (y, a, n, w)) = (false, false)) /\           (* everybody abstains *)
+  (y + n + w <> 0 -> c_veto c * (y + a + n + w) < w * 1000 ->
+     tally c expedited (Some (y, a, n, w)) = (false, c_burn_veto c)) /\                 (* veto *)
+  (y + n + w <> 0 -> w * 1000 <= c_veto c * (y + a + n + w) ->
+     tally c expedited (Some (y, a, n, w)) =
+       ((if expedited then c_exp_thr c else c_thr c) * (y + n + w) <? y * 1000, false)). (* threshold *)
+Proof. exact tally_outcomes. Qed.
+Print Assumptions C06_tally_outcomes.
+
+(** ** The resolutions, one by one (on ANY state, for the proposal [pid] being resolved). *)
+
+(** Minimum deposit not reached at the end of the deposit period: exactly the proposal's own
+    temporary entries are deleted; entries of other proposals (for the same addresses or not), the
+    permanent set and the params are untouched. *)
+Theorem C06_expired_cleans_only_its_own : forall c s pid pr, get_prop pid (props s) = Some pr ->
+  let s' := expire_one c s pid in
+  temps s' = del_prop_temps pid (temps s) /\ perm s' = perm s /\ is_live s' pid = false /\
+  smin s' = smin s /\ umin s' = umin s /\ (forall q, q <> pid -> is_live s' q = is_live s q).
+Proof. exact expire_one_exact. Qed.
+Print Assumptions C06_expired_cleans_only_its_own.
+
+(** Rejected at the end of the voting period — quorum not reached (nobody voted), everybody
+    abstains, veto (deposits burned when BurnVoteVeto), threshold not reached: same exact clean-up. *)
+Theorem C06_rejected_cleans_only_its_own : forall c vp s pid pr burn,
+  get_prop pid (props s) = Some pr -> p_expedited pr = false ->
+  tally c false (p_vote pr) = (false, burn) ->
+  let s' := tally_one c vp s pid in
+  temps s' = del_prop_temps pid (temps s) /\ perm s' = perm s /\ is_live s' pid = false /\
+  smin s' = smin s /\ umin s' = umin s /\ (forall q, q <> pid -> is_live s' q = is_live s q).
+Proof. exact tally_one_rejected. Qed.
+Print Assumptions C06_rejected_cleans_only_its_own.
+
+(** Passed, but one of its messages fails (a sanction naming a protected address, a params
+    update with a negative amount): everything the earlier messages of the same proposal did — the
+    permanent sanctions / unsanctions AND their deletion of temporary entries, also those of other
+    proposals — is rolled back, and the proposal's own temporary entries are removed. *)
+Theorem C06_failed_execution_rolls_back : forall c vp s pid pr burn,
+  get_prop pid (props s) = Some pr ->
+  tally c (p_expedited pr) (p_vote pr) = (true, burn) ->
+  existsb (bad_msg c) (p_msgs pr) = true ->
+  let s' := tally_one c vp s pid in
+  temps s' = del_prop_temps pid (temps s) /\ perm s' = perm s /\ is_live s' pid = false /\
+  smin s' = smin s /\ umin s' = umin s /\ (forall q, q <> pid -> is_live s' q = is_live s q).
+Proof. exact tally_one_failed. Qed.
+Print Assumptions C06_failed_execution_rolls_back.
+
+(** Passed and executed: every temporary entry (of ANY proposal) of every address named by the
+    proposal's messages is deleted and no other; the permanent status of an address is decided by
+    the LAST message naming it (message order). *)
+Theorem C06_passed_applies_messages_in_order : forall c vp s pid pr burn,
+  get_prop pid (props s) = Some pr ->
+  tally c (p_expedited pr) (p_vote pr) = (true, burn) ->
+  existsb (bad_msg c) (p_msgs pr) = false ->
+  let s' := tally_one c vp s pid in
+  temps s' = del_addr_temps (msg_addrs (p_msgs pr)) (temps s) /\
+  (forall a, memN a (perm s') = match last_dir a (p_msgs pr) with Some b => b | None => memN a (perm s) end) /\
+  is_live s' pid = false /\ (forall q, q <> pid -> is_live s' q = is_live s q).
+Proof. exact tally_one_passed. Qed.
+Print Assumptions C06_passed_applies_messages_in_order.
+
+(** An expedited proposal that does not pass is converted to a regular one: it stays live, no
+    balance moves (deposits kept), no permanent change, and the sanction hook looks at it a second
+    time with the deposit and the params of THAT moment: entries as for a deposit, the last
+    active message naming an address deciding; when an active sanction message names a protected
+    address the hook fails and nothing is written (the EndBlocker goes on: see
+    [C06_end_blocker_never_fails]). *)
+Theorem C06_expedited_conversion : forall c vp s pid pr burn,
+  get_prop pid (props s) = Some pr -> p_expedited pr = true ->
+  tally c true (p_vote pr) = (false, burn) ->
+  let s' := tally_one c vp s pid in
+  let s1 := set_props s (put_prop (converted pr vp) (props s)) in
+  s' = match run_hook c s1 (converted pr vp) with Some s2 => s2 | None => s1 end /\
+  perm s' = perm s /\ bal s' = bal s /\ balb s' = balb s /\ is_live s' pid = true /\
+  (existsb (fun m => msg_active s pr m && bad_sanction c m) (p_msgs pr) = true -> temps s' = temps s) /\
+  (existsb (fun m => msg_active s pr m && bad_sanction c m) (p_msgs pr) = false ->
+   forall a q, temp_entry s' a q =
+     match last_dir a (filter (msg_active s pr) (p_msgs pr)) with
+     | Some b => if N.eqb q pid then Some b else temp_entry s a q
+     | None => temp_entry s a q
+     end).
+Proof. exact tally_one_converted. Qed.
+Print Assumptions C06_expedited_conversion.
+
+(** ** Several messages of one proposal naming the same address: for the temporary entry the
+    LAST message whose immediate minimum is covered decides; the hook fails exactly when a covered
+    sanction message names a protected address. *)
+Theorem C06_temp_entry_last_message_wins : forall c s pr s' a q, run_hook c s pr = Some s' ->
+  temp_entry s' a q =
+  match last_dir a (filter (msg_active s pr) (p_msgs pr)) with
+  | Some b => if N.eqb q (p_id pr) then Some b else temp_entry s a q
+  | None => temp_entry s a q
+  end.
+Proof. exact run_hook_lookup. Qed.
+Print Assumptions C06_temp_entry_last_message_wins.
+
+Theorem C06_hook_fails_only_on_protected_address : forall c s pr,
+  run_hook c s pr = None <-> existsb (fun m => msg_active s pr m && bad_sanction c m) (p_msgs pr) = true.
+Proof. exact run_hook_fails. Qed.
+Print Assumptions C06_hook_fails_only_on_protected_address.
+
+(** ** Temporary entries appear only when funded, and at that moment.  After any history, if a
+    reader of the store sees after operation [o] an entry (a, p) with value [b] that it did not
+    see with that value before, then [o] was an accepted submission / deposit for proposal [p] whose
+    total deposit now covers EVERY denom of the non-empty immediate minimum of the entry's kind
+    (so a deposit covering one denom only creates nothing, an empty minimum = feature off creates
+    nothing, a params change alone creates nothing, an earlier under-funded deposit created
+    nothing), or [o] was a block boundary that converted the expedited proposal [p]. *)
+Theorem C06_new_entries_only_when_funded : forall c sm um fid t0 b0 bb0 ops o a p b,
+  (0 <= fst sm /\ 0 <= snd sm) -> (0 <= fst um /\ 0 <= snd um) ->
+  let s := run c (init sm um fid t0 b0 bb0) ops in
+  let s' := fst (step c s o) in
+  temp_entry s' a p = Some b -> temp_entry s a p <> Some b ->
+  snd (step c s o) = true /\
+  match o with
+  | OSubmit _ _ _ _ _ _ | ODeposit _ _ _ _ =>
+      exists pr, get_prop p (props s') = Some pr /\
+        let thr := if b then smin s' else umin s' in
+        zero2 thr = false /\ (fst thr <= fst (total_deposit pr) /\ snd thr <= snd (total_deposit pr))
+  | ONewBlock _ _ => exped s p = true /\ exped s' p = false /\ is_live s' p = true
+  | _ => False
+  end.
+Proof.
+  intros c sm um fid t0 b0 bb0 ops o a p b Hs Hu.
+  exact (new_entries_step c _ o a p b (Inv_run c _ ops (Inv_init c sm um fid t0 b0 bb0 Hs Hu))).
+Qed.
+Print Assumptions C06_new_entries_only_when_funded.
+
+(** ... and an accepted deposit DOES create them: afterwards the entry of every address for this
+    proposal is what the last covered message naming it says (deposits arriving in several steps:
+    the step that crosses the minimum is the one that creates the entries). *)
+Theorem C06_deposit_creates_entries_at_that_moment : forall c s pid who amt vp s',
+  add_deposit c s pid who amt vp = Some s' ->
+  exists pr', get_prop pid (props s') = Some pr' /\
+    forall a q, temp_entry s' a q =
+      match last_dir a (filter (msg_active s' pr') (p_msgs pr')) with
+      | Some b => if N.eqb q pid then Some b else temp_entry s a q
+      | None => temp_entry s a q
+      end.
+Proof. exact add_deposit_entries. Qed.
+Print Assumptions C06_deposit_creates_entries_at_that_moment.
+
+(** ** A resolution cleans exactly its own entries.  Across a whole block boundary (any number of
+    proposals expiring, being rejected, failing, passing, being converted): an address keeps its
+    entry for a proposal that is still live afterwards, unless a proposal naming that address was
+    resolved in this block.  (Together with the three "cleans only its own" theorems above: only
+    a PASSED proposal removes entries of other proposals, and only for the addresses it names —
+    that is the module's design, see [C06_passed_deletes_other_proposals_entries].) *)
+Theorem C06_resolution_cleans_exactly_its_own_entries : forall c s t vp a q b,
+  let s' := fst (step c s (ONewBlock t vp)) in
+  temp_entry s a q = Some b -> is_live s' q = true ->
+  temp_entry s' a q <> None \/
+  exists p ms, prop_msgs s p = Some ms /\ is_live s' p = false /\ In a (msg_addrs ms).
+Proof. exact new_block_keeps. Qed.
+Print Assumptions C06_resolution_cleans_exactly_its_own_entries.
+
+(** The naive reading "entries of OTHER proposals for the same address always survive" is false
+    of the code, by design (x/sanction spec: "If the proposal passes ... any temporary entries for
+    each address are removed"): proposal 1 (live, funded) sanctions account 2 temporarily; proposal
+    2 passes with an unsanction of account 2: proposal 1's entry for account 2 is gone although
+    proposal 1 is still live and funded, account 2 can move its funds; the next deposit on
+    proposal 1 brings the entry back. *)
+Example C06_passed_deletes_other_proposals_entries :
+  let c := {| c_unsanct := [5%N; 6%N]; c_gov_min := (1000, 20); c_exp_min := (5000, 0); c_thr := 500; c_exp_thr := 667; c_veto := 334; c_burn_veto := true; c_burn_quorum := false; c_burn_prevote := false |} in
+  let s0 := init (300, 0) (400, 0) 1%N 0 (fun _ => 9000) (fun _ => 100) in
+  let h := [OSubmit 0%N [MSanction [2%N]] (1000, 20) 300 400 false; OSubmit 3%N [MUnsanction [2%N]] (1000, 20) 300 100 false;
+            OVote 2%N (1000, 0, 0, 0); ONewBlock 100 400] in
+  let s1 := run c s0 h in
+  let s2 := run c s0 (h ++ [ONewBlock 101 400]) in
+  let s3 := run c s0 (h ++ [ONewBlock 101 400; ODeposit 4%N 1%N (1, 0) 400]) in
+  (temp_entry s1 2%N 1%N, is_sanctioned c s1 2%N) = (Some true, false) /\
+  (is_live s2 1%N, is_live s2 2%N, temp_entry s2 2%N 1%N, is_sanctioned c s2 2%N, snd (step c s2 (OSend 2%N 4%N 10))) = (true, false, None, false, true) /\
+  (temp_entry s3 2%N 1%N, is_sanctioned c s3 2%N) = (Some true, true).
+Proof. vm_compute. repeat split. Qed.
+
+(** ** The governance EndBlocker never fails on the model.  (Before the fix "sanction gov hook
+    returns an error instead of panicking" the conversion of an expedited proposal whose covered
+    sanction message names a protected address panicked inside the EndBlocker: chain halt.) *)
+Theorem C06_end_blocker_never_fails : forall c s t vp, snd (step c s (ONewBlock t vp)) = true.
+Proof. exact new_block_accepted. Qed.
+Print Assumptions C06_end_blocker_never_fails.
+
+(** The history of that (repaired) defect: the immediate minimum is off; an expedited proposal
+    names account 1 and the protected account 5; governance switches the minimum on; a deposit
+    (the hook inside a transaction) is refused; at the end of the expedited voting period the
+    proposal is converted, the hook fails, nothing is written and the block goes on; the
+    converted proposal is rejected for lack of votes by a later block. *)
+Example C06_conversion_with_protected_address_witness :
+  let c := {| c_unsanct := [5%N; 6%N]; c_gov_min := (1000, 20); c_exp_min := (5000, 0); c_thr := 500; c_exp_thr := 667; c_veto := 334; c_burn_veto := true; c_burn_quorum := false; c_burn_prevote := false |} in
+  let s0 := init (0, 0) (0, 0) 1%N 0 (fun _ => 9000) (fun _ => 100) in
+  let h := [OSubmit 0%N [MSanction [1%N; 5%N]] (5000, 0) 200 200 true; ODirect true (MParams (300, 0) (400, 0))] in
+  let s1 := run c s0 h in
+  let s2 := run c s0 (h ++ [ONewBlock 100 200; ONewBlock 101 200]) in
+  let s3 := run c s0 (h ++ [ONewBlock 100 200; ONewBlock 101 200; ONewBlock 200 200; ONewBlock 201 200]) in
+  (exped s1 1%N, snd (step c s1 (ODeposit 4%N 1%N (1, 0) 200)), temps s1) = (true, false, []) /\
+  (is_live s2 1%N, exped s2 1%N, temps s2, is_sanctioned c s2 1%N, bal s2 0%N) = (true, false, [], false, 4000) /\
+  (is_live s3 1%N, temps s3, perm s3, bal s3 0%N) = (false, [], [], 9000).
+Proof. vm_compute. repeat split. Qed.
+
+(** ** Store keys (byte level, Sanction/Keys.v).  A temporary key lies under the temporary prefix
+    of an address exactly when it is a key of that address — an address that extends another one
+    (20 bytes being the beginning of a 32-byte address), or ends in 0xFF / 0x00, is never confused
+    with it; within one address the key order is the order of the proposal ids (the reverse
+    iterator finds the highest-numbered proposal); a proposal's index prefix holds exactly its own
+    entries. *)
+Theorem C06_temp_key_prefix_exact : forall a a' p, has_prefix (temp_prefix a') (temp_key a p) = true <-> a' = a.
+Proof. exact temp_prefix_iff. Qed.
+Print Assumptions C06_temp_key_prefix_exact.
+
+Theorem C06_temp_key_order_is_proposal_order : forall a p q, (p < 2 ^ 64)%N -> (q < 2 ^ 64)%N ->
+  bytes_cmp (temp_key a p) (temp_key a q) = N.compare p q.
+Proof. exact temp_key_cmp. Qed.
+Print Assumptions C06_temp_key_order_is_proposal_order.
+
+Theorem C06_index_prefix_exact : forall p p' a, (p < 2 ^ 64)%N -> (p' < 2 ^ 64)%N ->
+  has_prefix (index_prefix p') (index_key p a) = true <-> p' = p.
+Proof. exact index_prefix_iff. Qed.
+Print Assumptions C06_index_prefix_exact.
+
+(** IsSanctionedAddr evaluated on ANY raw store that represents the model's sanction state
+    (every 0x02-key is the temporary key of an entry and vice versa, every 0x01-key a permanent
+    entry and vice versa), under ANY injective encoding of account ids as non-empty byte strings,
+    gives the model's [is_sanctioned]. *)
+Theorem C06_raw_store_refines_model : forall (enc : N -> bytes) c s st a,
+  (forall x y, enc x = enc y -> x = y) -> enc a <> [] ->
+  represents enc (perm s) (temps s) st ->
+  is_sanctioned_bytes (map enc (c_unsanct c)) st (enc a) = is_sanctioned c s a.
+Proof. exact bytes_refine. Qed.
+Print Assumptions C06_raw_store_refines_model.
 
 (** Non-vacuity: a concrete history with two overlapping proposals and a two-denom immediate
     sanction minimum (300 of A and 10 of B).  Proposal 1 is submitted with 300 of A only: the
